@@ -49,6 +49,8 @@ def one(src):
         name = f"{prop}-q{mk[1:]}"
     elif "/out10/" in src:
         name = f"{prop}-k{mk[1:]}"
+    elif "/out11/" in src:
+        name = f"{prop}-j{mk[1:]}"
     wt = f"/tmp/seedchk/{name}"
     os.makedirs("/tmp/seedchk", exist_ok=True)
     subprocess.run(f"git -C /repo worktree remove --force {wt}", shell=True, capture_output=True)
